@@ -48,9 +48,9 @@ LEVELS = {'C04': 'exploration', 'C05': 'exploration', 'C07': 'exploration'}
 PROBES = {
     'C04': ['framing.length', 'framing.chunked', 'framing.close', 'framing.none', 'surplus', 'truncated', 'post_body',
             'keepalive_reuse', 'concurrent_fetchers', 'lf_only', 'trailers', 'overrun_branch'],
-    'C05': ['ftp_sessions', 'ftp_records', 'compressed', 'uncompressed', 'digests_on', 'digests_off', 'rollover', 'appending', 'log_record', 'extra_fields',
+    'C05': ['ftp_sessions', 'ftp_records', 'compressed', 'uncompressed', 'digests_on', 'digests_off', 'rollover', 'appending', 'fresh_run_over_existing_files', 'log_record', 'extra_fields',
             'revisit', 'noncanonical_header', 'empty_body', 'big_body'],
-    'C07': ['compressed', 'uncompressed', 'rollover', 'appending', 'multiline_header', 'plus_mime', 'no_content_type',
+    'C07': ['compressed', 'uncompressed', 'rollover', 'appending', 'fresh_run_over_existing_files', 'multiline_header', 'plus_mime', 'no_content_type',
             'huge_header', 'cdx_lines'],
 }
 _COMMON = {
@@ -535,11 +535,21 @@ def run(tape, prop, tier):
                         r.violate('C07', 'cdx-unreadable', 'read_cdx-failed', repr(e)[:300])
             if ph == 1 and not params['appending']:
                 all_ex = []      # a fresh (non-appending) run over the same prefix: judge phase 2 alone
+                # The earlier run's files stay where they are: every file this run writes to (the first one, the numbered
+                # ones it rolls over into, -meta, the .cdx) must be started afresh. Numbered files it never reaches stay
+                # stale by design of --warc-max-size; they are recognised afterwards by being byte-identical and set aside.
+                earlier_files = {}
                 for name in os.listdir(sandbox):
-                    # numbered archive files of the earlier run that this run may not reach stay stale by design of
-                    # --warc-max-size; remove the earlier archives but KEEP the .cdx: a non-appending run must start it afresh
-                    if not name.endswith('.cdx'):
+                    fp = os.path.join(sandbox, name)
+                    if os.path.isfile(fp) and not name.endswith('.cdx'):
+                        with open(fp, 'rb') as fh:
+                            earlier_files[name] = fh.read()
+                if tape.chance(1, 2, 'fresh_run.clean_dir'):
+                    for name in earlier_files:
                         os.unlink(os.path.join(sandbox, name))
+                    earlier_files = {}
+                else:
+                    r.probes['fresh_run_over_existing_files'] += 1
             io_fault = None
             if faults_on and tape.chance(1, 6, 'io_fault'):
                 io_fault = {'nth': tape.draw(40, 'io_fault.nth'), 'kind': tape.choice(('torn-error', 'error'), 'io_fault.kind'),
@@ -548,6 +558,13 @@ def run(tape, prop, tier):
             kill_at_end = ph == 0 and nphase == 2 and tape.chance(1, 4, 'kill_between_phases')
             info = run_phase(tape, r, sandbox, ph, params, exs, url_table if ph == 1 else None, io_fault=io_fault, kill_at_end=kill_at_end)
             killed_prev = kill_at_end
+            if ph == 1 and not params['appending']:
+                for name, before in earlier_files.items():
+                    fp = os.path.join(sandbox, name)
+                    if os.path.isfile(fp):
+                        with open(fp, 'rb') as fh:
+                            if fh.read() == before:
+                                os.unlink(fp)        # not touched by this run: stale by design
             phases.append({'params': params, 'n': n, 'info': info})
             all_ex.extend(exs)
             prev = params
